@@ -121,6 +121,28 @@ func checkC05(p *Prog, r *Report) {
 		}
 	}
 
+	// helpers that only createDevice (or another such helper) calls belong to it
+	createDeviceHelper := map[*ssa.Function]bool{}
+	if cd := p.Func(pkgReceiver, "Transfer", "createDevice"); cd != nil {
+		unit := g.unitFuncs(cd)
+		inUnit := map[*ssa.Function]bool{}
+		for _, u := range unit {
+			inUnit[u] = true
+		}
+		for _, u := range unit[1:] {
+			only := len(g.In[u]) > 0
+			for _, e := range g.In[u] {
+				cs, isCall := e.Site.(ssa.CallInstruction)
+				if !inUnit[e.From] || e.Escape || !isCall || cs.Common().StaticCallee() != u {
+					only = false
+				}
+			}
+			if only {
+				createDeviceHelper[u] = true
+			}
+		}
+	}
+
 	// ---- NO-AMBIENT ----
 	r.Rule("C05/NO-AMBIENT", "no function of package receiver, nor any module function reachable from it, calls an ambient-authority file API (path-taking os.*, filepath.Walk/Glob/EvalSymlinks/Abs, ioutil, path-taking syscall/unix, os/exec, non-root renameio); allow-table: unix.Bind/Mknodat/Mkfifoat in createDevice (argument shapes checked by C05/FD-RELATIVE) and renameio.NewPendingFile with a WithRoot(DestRoot) option", 4)
 	for _, fn := range scopeFuncs {
@@ -133,7 +155,7 @@ func checkC05(p *Prog, r *Report) {
 			pos := p.Pos(instrPos(c))
 			switch lbl {
 			case "unix.Bind", "unix.Mknodat", "unix.Mkfifoat":
-				if pkgPathOfFunc(fn) == pkgReceiver && fn.Name() == "createDevice" {
+				if pkgPathOfFunc(fn) == pkgReceiver && (fn.Name() == "createDevice" || createDeviceHelper[fn]) {
 					r.OK("C05/NO-AMBIENT", key, pos, "allow-table: fd-relative special-file creation (see C05/FD-RELATIVE)")
 					return
 				}
@@ -174,16 +196,31 @@ func checkC05(p *Prog, r *Report) {
 	}
 
 	// ---- FD-RELATIVE ----
-	r.Rule("C05/FD-RELATIVE", "unix.Mknodat/Mkfifoat get dirfd = int(parentDir.Fd()) with parentDir from DestRoot.OpenFile, and path = filepath.Base(...); unix.Bind's SockaddrUnix.Name is filepath.Join(\"/proc/self/fd\", strconv.Itoa(int(parentDir.Fd())), filepath.Base(...))", 4)
+	r.Rule("C05/FD-RELATIVE", "unix.Mknodat/Mkfifoat get dirfd = int(parentDir.Fd()) with parentDir from DestRoot.OpenFile, and path = filepath.Base(...); unix.Bind's SockaddrUnix.Name is filepath.Join(\"/proc/self/fd\", strconv.Itoa(int(parentDir.Fd())), filepath.Base(...)); helper parameters are resolved to what every caller passes", 3)
 	isParentFd := func(v ssa.Value) bool {
 		c, ok := stripConv(v).(*ssa.Call)
 		if !ok || calleeName(c) != "(*os.File).Fd" {
 			return false
 		}
-		oc, idx := extractOf(c.Common().Args[0])
-		return oc != nil && idx == 0 && calleeName(oc) == "(*os.Root).OpenFile" && rc.ok(oc.Common().Args[0])
+		// the directory may be a helper's parameter: every caller passes an OpenFile result
+		roots := g.paramRoots(c.Common().Args[0], 0)
+		for _, root := range roots {
+			oc, idx := extractOf(root)
+			if !(oc != nil && idx == 0 && calleeName(oc) == "(*os.Root).OpenFile" && rc.ok(oc.Common().Args[0])) {
+				return false
+			}
+		}
+		return len(roots) > 0
 	}
-	isBase := func(v ssa.Value) bool { return isCallTo(v, "path/filepath.Base") }
+	isBase := func(v ssa.Value) bool {
+		roots := g.paramRoots(v, 0)
+		for _, root := range roots {
+			if !isCallTo(root, "path/filepath.Base") {
+				return false
+			}
+		}
+		return len(roots) > 0
+	}
 	for _, fn := range scopeFuncs {
 		allCalls(fn, func(c ssa.CallInstruction) {
 			n := calleeName(c)
